@@ -411,12 +411,17 @@ func SameEncoding(t reflect.Type, a, b []byte) bool {
 // bodies and of map entries in a different order (a reader of a tagged format
 // must not care). Lengths never change. next(n) draws from [0,n); changed
 // reports whether any order was changed.
-func PermuteFields(t reflect.Type, data []byte, next func(n int) int) (out []byte, changed bool) {
+//
+// entries: also permute the two fields of map entries. plenc itself only reads
+// key-first entries as intended (a value-first entry is walked differently and
+// the rest of the record may then fail to parse), so such records are hostile
+// input rather than well-formed records as far as plenc is concerned.
+func PermuteFields(t reflect.Type, data []byte, next func(n int) int, entries bool) (out []byte, changed bool) {
 	out = append([]byte(nil), data...)
 	for t.Kind() == reflect.Ptr {
 		t = t.Elem()
 	}
-	p := &permuter{next: next}
+	p := &permuter{next: next, entries: entries}
 	var err error
 	switch {
 	case t.Kind() == reflect.Struct && t != tTime && !isNullType(t):
@@ -432,7 +437,9 @@ func PermuteFields(t reflect.Type, data []byte, next func(n int) int) (out []byt
 
 type permuter struct {
 	next    func(n int) int
+	entries bool
 	changed bool
+	inEntry bool
 }
 
 func (p *permuter) value(t reflect.Type, wt int, d []byte) error {
@@ -450,10 +457,10 @@ func (p *permuter) value(t reflect.Type, wt int, d []byte) error {
 			return nil
 		}
 		if wt == WTLength {
-			return p.structBody(entryLookup(t), d)
+			return p.entryBody(t, d)
 		}
 		return forEachEntry(d, func(start, ps, end int) error {
-			return p.structBody(entryLookup(t), d[ps:end])
+			return p.entryBody(t, d[ps:end])
 		})
 	case reflect.Slice:
 		et := t.Elem()
@@ -470,7 +477,14 @@ func (p *permuter) value(t reflect.Type, wt int, d []byte) error {
 	return nil
 }
 
+func (p *permuter) entryBody(mt reflect.Type, d []byte) error {
+	p.inEntry = true
+	return p.structBody(entryLookup(mt), d)
+}
+
 func (p *permuter) structBody(lk lookup, d []byte) error {
+	isEntry := p.inEntry
+	p.inEntry = false
 	var segs []seg
 	off := 0
 	for off < len(d) {
@@ -530,7 +544,7 @@ func (p *permuter) structBody(lk lookup, d []byte) error {
 		}
 		segs = append(segs, seg{start, off})
 	}
-	if len(segs) < 2 || p.next(2) == 0 {
+	if len(segs) < 2 || p.next(2) == 0 || (isEntry && !p.entries) {
 		return nil
 	}
 	blobs := make([][]byte, len(segs))
